@@ -207,7 +207,7 @@ func vfC11Run(cs vfC11Case, res *vfC11Res) string {
 			}
 			if !localIsClient {
 				sawFail := false
-				for _, m := range sess.s2c.messages() {
+				for _, m := range sess.wire("s2c").messages() {
 					if m.Typ == "fail" || m.Typ == "FAIL" {
 						sawFail = true
 					}
